@@ -11,6 +11,13 @@ OLD = b"OLD-CONTENT\n"
 STALE = b"STALE-PART\n"
 
 
+class FalsyError(Exception):
+    """an exception instance that is falsy (a result-carrying error sized by the rows processed so far)"""
+
+    def __len__(self):
+        return 0
+
+
 class BodyError(Exception):
     pass
 
@@ -66,6 +73,20 @@ def run(cfg, faults=None, keep_events=True, workdir=None, kill_at=None):
     d = workdir or os.path.realpath(tempfile.mkdtemp(prefix="asave-"))
     dest = os.path.join(d, "dest.txt")
     part = dest + ".part"
+    other_dir = None
+    if cfg.get("part_elsewhere"):
+        # part_file= given as an absolute path in a directory on ANOTHER file system: the publishing rename cannot work
+        # (EXDEV) and must not be replaced by a copy
+        try:
+            other_dir = os.path.realpath(tempfile.mkdtemp(prefix="asave-part-", dir="/dev/shm"))
+            if os.stat(other_dir).st_dev == os.stat(d).st_dev:
+                raise OSError("same device")
+            part = os.path.join(other_dir, "dest.txt.part")
+        except OSError:
+            if other_dir:
+                shutil.rmtree(other_dir, ignore_errors=True)
+            other_dir = None
+            cfg = dict(cfg, part_elsewhere=False)
     old_umask = os.umask(cfg["umask"])
     try:
         if cfg["dest_present"]:
@@ -110,6 +131,8 @@ def run(cfg, faults=None, keep_events=True, workdir=None, kill_at=None):
               "text_mode": cfg["text_mode"]}
         if cfg["perms"]:
             kw["file_perms"] = cfg["perms"]
+        if other_dir:
+            kw["part_file"] = part
         warm, extra_fds = None, []
         if cfg.get("warm_saver") and cfg["dest_present"] and cfg["overwrite"] and not cfg["part_present"]:
             # a long-lived AtomicSaver that has already completed one save of this destination (unrecorded), after which
@@ -123,11 +146,13 @@ def run(cfg, faults=None, keep_events=True, workdir=None, kill_at=None):
         init = classify()
         raised, body_raised = "", False
         ip = fsio.Interposer(d, classify, faults)
+        if other_dir:
+            ip.more_dirs = [other_dir]
         ip.kill_at = kill_at
         saver = warm if warm is not None else fileutils.atomic_save(dest, **kw)
         # what tears the with-block down: an ordinary exception, or a BaseException that is not an Exception
         # (Ctrl-C, sys.exit() in the body, a generator holding the block being closed)
-        body_exc = {"KeyboardInterrupt": KeyboardInterrupt, "SystemExit": SystemExit, "GeneratorExit": GeneratorExit}.get(
+        body_exc = {"KeyboardInterrupt": KeyboardInterrupt, "SystemExit": SystemExit, "GeneratorExit": GeneratorExit, "FalsyError": FalsyError}.get(
             cfg.get("raise_kind", "Exception"), BodyError)
         with ip:
             try:
@@ -163,7 +188,7 @@ def run(cfg, faults=None, keep_events=True, workdir=None, kill_at=None):
             except BaseException:
                 retry_ok = False
         tr = {"cfg": {"overwrite": cfg["overwrite"], "overwrite_part": cfg["overwrite_part"], "rm_part_on_exc": cfg["rm_part_on_exc"],
-                      "perms": cfg["perms"], "umask_default": 0o666 & ~cfg["umask"]},
+                      "perms": cfg["perms"], "umask_default": 0o666 & ~cfg["umask"], "part_elsewhere": bool(cfg.get("part_elsewhere"))},
               "init": init, "total": len(new), "ev": ip.events + [{"name": "end", "target": "", "faulted": False, "n": 0,
                                                                     "dest": last["dest"], "part": last["part"]}],
               "raised": bool(raised), "raised_name": raised, "body_raised": body_raised, "retried": retried, "retry_ok": retry_ok, "retry_mode": retry_mode, "retry_same_object": retry_same,
@@ -171,6 +196,8 @@ def run(cfg, faults=None, keep_events=True, workdir=None, kill_at=None):
         return tr
     finally:
         os.umask(old_umask)
+        if other_dir:
+            shutil.rmtree(other_dir, ignore_errors=True)
         for fd_ in locals().get("extra_fds", []):
             try:
                 os.close(fd_)
